@@ -70,6 +70,8 @@ type render struct {
 	twoName bool
 	srcErr  string // the error value of a failing source: plain | wrap_eof | wrap_ueof
 	nonStk  bool   // the failing source reports plain io.EOF after its failure
+	scheme  string // http | ws | wss: how a "transport error before the body" script is realised
+	schAt   string // runtime | operation
 }
 
 // srcOffBytes renders the abstract source-fault offset (units) to a byte offset of a file of n bytes.
@@ -111,7 +113,8 @@ func descriptor(scr M, r render) M {
 		"timeout_ms": r.tm.timeoutMs, "ctx_ms": r.tm.ctxMs,
 		"file_len": r.fileLen, "src_off": r.srcOff, "src_chunk": r.chunk, "resp_unit": r.unit,
 		"resp_chunk": r.rchunk, "settle_ms": 3000,
-		"srv_off": r.srvOff, "ctype": r.ctype, "two_names": r.twoName, "src_err": srcErrOr(r.srcErr), "src_nonsticky": r.nonStk}
+		"srv_off": r.srvOff, "ctype": r.ctype, "two_names": r.twoName, "src_err": srcErrOr(r.srcErr), "src_nonsticky": r.nonStk && r.srcErr != "bare_ueof",
+		"scheme": schemeOr(r.scheme), "scheme_at": schemeAtOr(r.schAt)}
 }
 
 func srcErrOr(v string) string {
@@ -121,7 +124,38 @@ func srcErrOr(v string) string {
 	return v
 }
 
-var srcErrVals = []string{"plain", "wrap_eof", "wrap_ueof"}
+func schemeOr(v string) string {
+	if v == "" {
+		return "http"
+	}
+	return v
+}
+
+func schemeAtOr(v string) string {
+	if v == "" {
+		return "runtime"
+	}
+	return v
+}
+
+// schemeFor: scripts whose fault is "transport error before the body is consumed" are realised in turn by an injected
+// transport error, by scheme ws on the runtime and by scheme wss on the operation.
+func schemeFor(s script, idx int) (string, string) {
+	if s.TFault != "before" {
+		return "http", "runtime"
+	}
+	switch idx % 3 {
+	case 1:
+		return "ws", "runtime"
+	case 2:
+		return "wss", "operation"
+	}
+	return "http", "runtime"
+}
+
+// bare_ueof: the source's own failure is the bare io.ErrUnexpectedEOF (sticky: a non-sticky source returning a bare
+// end-of-stream sentinel is indistinguishable from a shorter file)
+var srcErrVals = []string{"plain", "wrap_eof", "wrap_ueof", "bare_ueof"}
 
 // timing is one point of the deadline-selection lattice: where the request timeout comes from, where the caller's
 // context is supplied, and how its deadline relates to the request timeout.
@@ -250,7 +284,8 @@ func renderScript(scr M, idx int, thorough bool) []M {
 				r := render{mode: mode, tm: tm, fileLen: []int{700, 700},
 					chunk: []int{4096, 64}[(idx/2)%2], unit: 8, rchunk: 4096}
 				r.srcOff = []int{srcOffBytes(s.Src[0].Off, 700, v), srcOffBytes(s.Src[1].Off, 700, v+1)}
-				r.srcErr, r.nonStk = srcErrVals[(idx+v)%3], ((idx+v)/3)%2 == 1
+				r.srcErr, r.nonStk = srcErrVals[(idx+v)%4], ((idx+v)/4)%2 == 1
+				r.scheme, r.schAt = schemeFor(s, idx)
 				r.srvOff = srvOffBytes(s.SrvAt, s.SrvK, r.unit, idx, fileData(9, respUnits*r.unit))
 				out = append(out, descriptor(scr, r))
 			}
@@ -355,7 +390,8 @@ func randomRender(scr M, rng *rand.Rand) M {
 			r.srcOff = append(r.srcOff, 1+rng.Intn(n-1))
 		}
 	}
-	r.srcErr, r.nonStk = srcErrVals[rng.Intn(3)], rng.Intn(2) == 0
+	r.srcErr, r.nonStk = srcErrVals[rng.Intn(4)], rng.Intn(2) == 0
+	r.scheme, r.schAt = schemeFor(s, rng.Intn(3))
 	r.unit = []int{1, 8, 5000, 40000}[rng.Intn(4)]
 	r.rchunk = []int{1, 3, 4096, 1 << 20}[rng.Intn(4)]
 	if r.rchunk < 512 && r.unit > 8 {
@@ -495,6 +531,29 @@ func generate(c *drv.Ctx) {
 			}
 		}
 		c.Extra["source_error_values"] = n
+	}
+
+	// (2e) a scheme the transport cannot speak (ws on the runtime, wss on the operation): refused before the body is read
+	{
+		n := 0
+		for _, pay := range []struct {
+			p    string
+			f, n int
+		}{{"buffer", 0, 0}, {"reader", 0, 0}, {"mp", 1, 0}, {"mp", 0, 1}, {"mp", 1, 1}, {"mp", 0, 2}, {"mp", 1, 2}} {
+			for _, auth := range []string{"none", "ok", "read"} {
+				for si, sc := range [][2]string{{"ws", "runtime"}, {"wss", "operation"}, {"wss", "runtime"}, {"ws", "operation"}} {
+					scr := baseScript(pay.p, pay.f, pay.n, n%2 == 0, auth, "all", "none")
+					scr["tfault"] = "before"
+					s := scriptOf(drv.Norm(scr))
+					lat := timingLattice(s)
+					r := render{mode: []string{"rt", "wire"}[(n+si)%2], tm: renderTiming(s, lat[n%len(lat)], 250), fileLen: []int{700, 700},
+						srcOff: []int{0, 0}, chunk: 4096, unit: 8, rchunk: 4096, scheme: sc[0], schAt: sc[1]}
+					descs = append(descs, descriptor(scr, r))
+					n++
+				}
+			}
+		}
+		c.Extra["unsupported_scheme"] = n
 	}
 
 	// (2d) the reader copies the body into a destination that fails after one unit (io.Copy / WriterTo)
